@@ -429,7 +429,11 @@ func realMain() int {
 			return 2
 		}
 		if r.Replay.Class != "" {
-			fmt.Printf("replay: violation class=%s same_class=%v same_trace=%v\n  %s\n", r.Replay.Class, r.Replay.Reproduced, r.Replay.SameTrace, r.Replay.Detail)
+			how := "the plan alone, in a fresh process"
+			if r.Replay.ViaSession {
+				how = "re-running the recorded worker session in a fresh process (the plan alone does not fail: the violation depends on state the code under test keeps across runs of one process)"
+			}
+			fmt.Printf("replay: violation class=%s same_class=%v same_trace=%v, reproduced by %s\n  %s\n", r.Replay.Class, r.Replay.Reproduced, r.Replay.SameTrace, how, r.Replay.Detail)
 			fmt.Printf("VIOLATION property=%s replay=%s\n", id, abs)
 			return 1
 		}
@@ -565,6 +569,21 @@ func realMain() int {
 	for _, k := range known {
 		if knownStill[k.Key] || knownHits[k.Key] > 0 {
 			fmt.Printf("KNOWN-FINDING: property=%s %s (key %s; met %d times in this search)\n", id, k.What, k.Key, knownHits[k.Key])
+		}
+	}
+	// the first replay file is verified in a fresh process before anything is reported: alone,
+	// or else through the worker session recorded in it
+	if len(viol) > 0 && os.Getenv("VERIF_NO_REPLAY_CHECK") == "" {
+		r, problem := runWorker(0, "VERIF_REPLAY="+viol[0].Replay)
+		switch {
+		case problem != "" || r == nil || r.Replay == nil:
+			incs = append(incs, fmt.Sprintf("replay of %s in a fresh process failed to run: %s", viol[0].Replay, problem))
+		case !r.Replay.Reproduced:
+			incs = append(incs, fmt.Sprintf("NONDETERMINISM: %s does not reproduce class %s in a fresh process, neither alone nor through its recorded session (got %q)", viol[0].Replay, viol[0].Class, r.Replay.Class))
+		case r.Replay.ViaSession:
+			fmt.Printf("replay verified in a fresh process by re-running the recorded worker session (the plan alone does not fail there: state carried across runs of one process is involved)\n")
+		default:
+			fmt.Printf("replay verified in a fresh process (same trace: %v)\n", r.Replay.SameTrace)
 		}
 	}
 	for _, v := range viol {
